@@ -664,6 +664,59 @@ def pair_histories(s, kinds=None, rounds=5, text='plain', timing='any', on_state
 
 
 # --------------------------------------------------------------------------
+# IDs are per kind and per tag: a story may be called what an item (here or elsewhere) is called, and the
+# objID / mosID / slug / storyNum of one element may spell the ID of another.  Lookups and duplicate checks
+# that look at more than the ID tag of the right kind of element show here.
+
+def collision_cases(s, level='both'):
+    from ..build import E
+    idx = 0
+
+    def it(i, obj=None, mos=None, slug='x'):
+        extra = []
+        if obj is not None:
+            extra.append(E('objID', obj))
+        if mos is not None:
+            extra.append(E('mosID', mos))
+        return B.item(i, slug, extra)
+    # stories 1 2 3 whose items are called 1 2 3 / N1 as well; the slug and storyNum of one story spell another's ID
+    st = [B.story('1', '2', [it('2', obj='3'), it('3', obj='1'), it('N1', obj='2', mos='3')], extra=[E('storyNum', '3')]),
+          B.story('2', '3', [it('1', obj='N2'), it('N2', obj='1')], extra=[E('storyNum', '1')]),
+          B.story('3', '1', [it('3'), it('1', mos='3'), it('2', slug='3')])]
+    for layout in ('none', 'between'):
+        entries = list(st) if layout == 'none' else [st[0], E('macroIn', '2'), st[1], E('roTrigger', '3'), st[2]]
+        ro_txt = B.ro_doc('RO', 1, [B.clone(e) for e in entries], ed_start='2020-01-01T12:30:00')
+        new = lambda i: gen.simple_story(i, 1, item_prefix='q')
+        cases = []
+        if level in ('both', 'story'):
+            cases += [('roStoryInsert', dict(target='2', carried=[new('N1')])), ('roStoryInsert', dict(target='3', carried=[new('N2'), new('N9')])),
+                      ('EAStoryInsert', dict(target='1', carried=[new('N1'), new('N2')])), ('EAStoryInsert', dict(target=B.BLANK, carried=[new('N1')])),
+                      ('roStoryAppend', dict(carried=[new('N2')])), ('roStoryReplace', dict(target='2', carried=[new('N1')])),
+                      ('EAStoryReplace', dict(target='3', carried=[new('N2')])),
+                      ('roStoryDelete', dict(ids=['2'])), ('EAStoryDelete', dict(ids=['3', '1'])), ('roStoryDelete', dict(ids=['N1'])),
+                      ('roStoryMove', dict(ids=['3'], target='1')), ('EAStoryMove', dict(ids=['3', '2'], target='1')),
+                      ('EAStorySwap', dict(ids=['1', '3'])), ('roStoryMove', dict(ids=['N2'], target='1')),
+                      ('roStorySend', dict(story_ref='2', body=[E('p', 'sent')], fields=['BODY']))]
+        if level in ('both', 'item'):
+            cases += [('roItemDelete', dict(story_ref='1', ids=['3'])), ('EAItemDelete', dict(story_ref='1', ids=['3', 'N1'])),
+                      ('roItemDelete', dict(story_ref='2', ids=['N2'])), ('roItemDelete', dict(story_ref='3', ids=['1'])),
+                      ('roItemInsert', dict(story_ref='1', target='3', carried=[it('n', obj='2')])),
+                      ('EAItemInsert', dict(story_ref='2', target='N2', carried=[it('n')])),
+                      ('roItemReplace', dict(story_ref='1', target='N1', carried=[it('n')])),
+                      ('EAItemReplace', dict(story_ref='3', target='1', carried=[it('n')])),
+                      ('roItemMoveMultiple', dict(story_ref='1', ids=['N1'], target='3')),
+                      ('roItemMoveMultiple', dict(story_ref='1', ids=['3'], target='2')),
+                      ('EAItemMove', dict(story_ref='1', ids=['N1', '3'], target='2')),
+                      ('EAItemMove', dict(story_ref='3', ids=['2'], target='3')),
+                      ('EAItemSwap', dict(story_ref='1', ids=['2', '3'])), ('EAItemSwap', dict(story_ref='3', ids=['1', '2']))]
+        for kind, kw in cases:
+            idx += 1
+            if s.mine(idx):
+                run_case(s, ro_txt, kind, kw, ctx={'collision': layout})
+    s.hist['collision_cases'] = idx
+
+
+# --------------------------------------------------------------------------
 # delete, then create again under the same ID (the NCS re-creates a story, or moves it by delete + insert):
 # on ONE running-order object.  What a running order remembers about elements that are gone shows here.
 
